@@ -98,21 +98,13 @@ func (l *stubLedger) QueryBlockByHeight(h int64) (ledger.BlockHandle, error) {
 	return l.chain[h], nil
 }
 
-// putState records the contract storage as of block b (a copy of the parent's storage plus the writes).
-func (l *stubLedger) putState(b *blk, writes map[string][]byte) {
+// putState records the contract storage as of block b (exactly the given entries: the walk's configuration
+// says for every height what is recorded as of that block).
+func (l *stubLedger) putState(b *blk, entries map[string][]byte) {
 	if l.state == nil {
 		l.state = map[string]map[string][]byte{}
 	}
-	st := map[string][]byte{}
-	if p, ok := l.byID[string(b.PreHash)]; ok {
-		for k, v := range l.state[string(p.Blockid)] {
-			st[k] = v
-		}
-	}
-	for k, v := range writes {
-		st[k] = v
-	}
-	l.state[string(b.Blockid)] = st
+	l.state[string(b.Blockid)] = entries
 }
 
 // blockReader is the snapshot of the contract storage at one block, with the answers of the real
